@@ -39,6 +39,8 @@ def viol : Nat → Cmd → List Clause
   | _, .ret _ => []
   | _, .exit _ => []
   | _, .setOpt _ _ => []
+  | _, .fault _ => []
+  | _, .callT _ => []
   | _, .cmdsubst c => viol 0 c
   | d, .evalC c => viol d c
   | _, .pipe _ last => viol 0 last
